@@ -3,11 +3,15 @@
 // Units: C11.enum / C11.rand (small universes, every collision pattern, model after every call),
 // C11.types (the same machine over other key/value instantiations: zero values, equal-but-distinct
 // floats, interfaces, zero-size types, types with methods; types_test.go), C11.big (hundreds to
-// thousands of pairs: size thresholds, shrink/grow sweeps, Clear/Clone/Range on big maps; big_test.go).
+// thousands of pairs: size thresholds, shrink/grow sweeps, Clear/Clone/Range on big maps; big_test.go),
+// C11.par (2^13..2^16 (thorough 2^18) +-1 pairs under GOMAXPROCS 1,2,3,5,6,7 and the default; par_test.go),
+// C11.repeat (one cheap call cycle repeated 2^16 .. 2^24 times: wrapping counters; repeat_test.go) and the
+// thorough-only C11.wrap32 (2^32 repetitions).
 package c11
 
 import (
 	"fmt"
+	"runtime"
 	"testing"
 
 	"gopkg.in/typ.v4/maps"
@@ -75,7 +79,9 @@ const (
 	opProbe     = 7 // Get*/Contains* for key A mod 6 and value B mod 6 (4, 5 are never added)
 	opLen       = 8 // Len
 	opNested    = 9 // Range whose callback only READS this Bimap or its clones (variant B mod 5, see nestedCheck)
-	nOps        = 10
+	opNew       = 10 // a new, INDEPENDENT zero-value Bimap becomes a box (placed like a clone); A odd: it starts with Add(key(A), val(B))
+	opGC        = 11 // runtime.GC() between two calls (dropped boxes become collectable; pools and weak references are flushed)
+	nOps        = 12
 )
 
 type Op struct {
@@ -92,7 +98,7 @@ type Case struct {
 	Ops   []Op `json:"ops"`
 }
 
-const rule = "boxes = live Bimap values (start: zero value | Clone of zero value | Clone of a populated map with the original kept alive; Clone ops add boxes, max 4), " +
+const rule = "boxes = live Bimap values (start: zero value | Clone of zero value | Clone of a populated map with the original kept alive; Clone ops add boxes, New ops add INDEPENDENT zero-value Bimaps that are used alternately with the others, max 4 boxes, replaced boxes become garbage; rare runtime.GC() between calls), " +
 	"each with its own model (list of pairs; Add(k,v) deletes every pair with key k or value v, then inserts); 4 addable keys and values + 2 probe-only ones; " +
 	"after EVERY call, for EVERY live box and every key and value of the universe: GetForward/GetReverse/ContainsForward/ContainsReverse agree with the model, " +
 	"GetForward(k)=(v,true) <=> GetReverse(v)=(k,true) on the library's own answers, Len = number of pairs (so a change leaking through a Clone shows up in the other box); " +
@@ -369,7 +375,19 @@ func runSmall[KT, VT comparable](c Case, u *universe[KT, VT]) pbt.Outcome {
 		remHit, remMiss, clears, clearsNonEmpty                    int
 		nested, nestedBig                                          int
 		maxPairs                                                   int
+		news, gcs, mutAfterNew                                     int
 	)
+	place := func(nb *box[KT, VT], h, b int) {
+		if len(boxes) < maxBoxes {
+			boxes = append(boxes, nb)
+			return
+		}
+		slot := mod(b, len(boxes))
+		if slot == h { // never drop the source: keep original and clone both alive
+			slot = (slot + 1) % len(boxes)
+		}
+		boxes[slot] = nb
+	}
 	for i, op := range c.Ops {
 		h := mod(op.H, len(boxes))
 		x := boxes[h]
@@ -439,15 +457,23 @@ func runSmall[KT, VT comparable](c Case, u *universe[KT, VT]) pbt.Outcome {
 			clones++
 			cl := x.b.Clone()
 			nb := &box[KT, VT]{b: &cl, u: u, pairs: append([]pair[KT, VT](nil), x.pairs...)}
-			if len(boxes) < maxBoxes {
-				boxes = append(boxes, nb)
-			} else {
-				slot := mod(op.B, len(boxes))
-				if slot == h { // never drop the source: keep original and clone both alive
-					slot = (slot + 1) % len(boxes)
-				}
-				boxes[slot] = nb
+			place(nb, h, op.B)
+		case opNew:
+			what = "new independent zero-value Bimap"
+			news++
+			var fresh maps.Bimap[KT, VT]
+			nb := &box[KT, VT]{b: &fresh, u: u}
+			if mod(op.A, 2) == 1 {
+				k, v := u.key(op.A), u.val(op.B)
+				what += fmt.Sprintf(" + Add(%s,%s)", u.kname(k), u.vname(v))
+				fresh.Add(k, v)
+				nb.modelAdd(k, v)
 			}
+			place(nb, h, op.B)
+		case opGC:
+			what = "runtime.GC()"
+			gcs++
+			runtime.GC()
 		case opRange:
 			what = fmt.Sprintf("box %d: Range(all)", h)
 			ranges++
@@ -497,6 +523,9 @@ func runSmall[KT, VT comparable](c Case, u *universe[KT, VT]) pbt.Outcome {
 				return pbt.Fail("[%s] op %d: box %d: Len() = %d, want %d (model %v)", u.name, i, h, got, len(x.pairs), x)
 			}
 		}
+		if k := mod(op.K, nOps); news > 0 && k <= opClear {
+			mutAfterNew++
+		}
 		evals++
 		if len(x.pairs) > maxPairs {
 			maxPairs = len(x.pairs)
@@ -526,6 +555,9 @@ func runSmall[KT, VT comparable](c Case, u *universe[KT, VT]) pbt.Outcome {
 	lab(clears > clearsNonEmpty, "clear-empty")
 	lab(clones > 0, "clone")
 	lab(clones > 0 && mutAfterClone > 0, "clone+mutation-afterwards")
+	lab(news > 0, "independent-bimap")
+	lab(news > 0 && mutAfterNew >= 4, "independent-bimaps-mutated-alternately(>=4 calls)")
+	lab(gcs > 0, "gc-between-calls")
 	lab(ranges > 0, "range-all")
 	lab(rangeStopsEarly > 0, "range-stopped-early")
 	lab(rangeStops > rangeStopsEarly, "range-stop-not-reached")
@@ -548,7 +580,7 @@ func runSmall[KT, VT comparable](c Case, u *universe[KT, VT]) pbt.Outcome {
 var kindTable = []int{
 	opAdd, opAdd, opAdd, opAdd, opAdd, opAdd, opAdd, opAdd, opAdd, opAdd,
 	opRemFwd, opRemFwd, opRemRev, opRemRev, opClear,
-	opClone, opClone, opRange, opRangeStop, opProbe, opLen, opNested,
+	opClone, opClone, opRange, opRangeStop, opProbe, opLen, opNested, opNew,
 }
 
 var opGen = rapid.Custom(func(t *rapid.T) Op {
@@ -577,10 +609,16 @@ func genCase(t *rapid.T) Case {
 	if c.Ops == nil {
 		c.Ops = []Op{}
 	}
+	// A garbage collection between two calls costs as much as hundreds of cases: a few percent of the cases get one or two
+	// (a non-boundary value of the range is tested, rapid draws 0 and the ends far more often than the rest).
+	if len(c.Ops) > 0 && rapid.IntRange(0, 15).Draw(t, "gc") == 11 {
+		c.Ops[rapid.IntRange(0, len(c.Ops)-1).Draw(t, "gcat")].K = opGC
+		c.Ops[rapid.IntRange(0, len(c.Ops)-1).Draw(t, "gcat2")].K = opGC
+	}
 	return c
 }
 
-const randMix = "rapid: start 0..2, 0..50 ops (Add 45%, RemoveForward/RemoveReverse 18%, Clear 5%, Clone 9%, Range/Range-with-stop 9%, Range with read-only nested calls 5%, probes/Len 9%), box/key/value raw ints reduced at run time; "
+const randMix = "rapid: start 0..2, 0..50 ops (Add 43%, RemoveForward/RemoveReverse 17%, Clear 4%, Clone 9%, new independent Bimap 4%, Range/Range-with-stop 9%, Range with read-only nested calls 4%, probes/Len 9%, runtime.GC() once or twice in about 3% of the cases), box/key/value raw ints reduced at run time; "
 
 var specRand = pbt.Register(&pbt.Spec[Case]{
 	Property: "C11", Name: "C11.rand", Rule: randMix + "Bimap[K,V] with K, V distinct named int types, keys 0..3 (+4,5 probe-only), values 100..103 (+104,105); " + rule,
